@@ -141,6 +141,8 @@ DIRECTED = [
     ([("F", "f", b"x")], ("removetree", "f")),
     ([], ("removetree", "nope")),
     ([("F", "f", b"x")], ("removetree", "..")),
+    ([("F", "f", b"x"), ("D", "d")], ("removetree", "x\0/..")),          # 433aea4: validated before it is normalised
+    ([("F", "f", b"x")], ("removetree", "\0/../..")),                    # … and NUL named before the climbing
     ([("F", "f", b"x")], ("copy", "f", "f", True)),
     ([("F", "f", b"x")], ("copy", "f", "", True)),
     ([("F", "f", b"x"), ("D", "d")], ("copy", "f", "d", True)),
